@@ -17,6 +17,7 @@ HIST = [
     "",
     "addi x1, x0, 5\nthis is not assembly",
     "li x5, 100000\nl: beq x0, x0, l",
+    ".data\nh: .half 1, 0x8002, 3\ns: .string \"abc\"\nb: .byte 7\n.text\nlh x1, h\nlb x2, s[1]",         # every width of preload
 ]
 TARGETS = [
     ".data\nv: .byte 1\nw: .half 7\n.text\nlw x1, v\nlw x2, w\nla x3, w[1]\naddi x4, x1, 1",
@@ -32,6 +33,7 @@ def opts(tier):
     d = CacheOptions(True, 1, 1, 2, "wb", "lru", 2)
     i = CacheOptions(True, 1, 0, 2, "wb", "plru", 3)
     yield {"data_cache": d, "instruction_cache": i}
+    yield {"data_cache": CacheOptions(True, 0, 1, 2, "wt", "plru", 1)}
     if tier == "thorough":
         yield {"mode": "five_stage_pipeline", "data_cache": CacheOptions(True, 0, 1, 2, "wt", "plru", 1), "instruction_cache": i}
 
